@@ -125,10 +125,17 @@ func families(extra func(i, j int) int) []family {
 		{"10i+j", func(i, j int) int { return 10*i + j }},
 		{"negative", func(i, j int) int { return -(i*7 + j + 1) }},
 		{"huge", func(i, j int) int {
-			if (i+j)%2 == 0 {
+			switch (i + 2*j) % 5 {
+			case 0:
 				return 1 << 62
+			case 1:
+				return -(1 << 62)
+			case 2:
+				return -1 << 63 // math.MinInt64: its negation overflows
+			case 3:
+				return 1<<63 - 1
 			}
-			return -(1 << 62)
+			return -(1<<63 - 1)
 		}},
 		{"asymmetric-definition", func(i, j int) int { return 1000*i - 3*j }},
 		{"mixed-width", func(i, j int) int {
@@ -384,6 +391,18 @@ func runCase(r *driver.Run, n int, fam family, sampled bool) {
 			o := runLIB(r, n, fam.f, fw)
 			r.Logf("  -> LIB returned %v after %d writes", o.err, o.w.calls)
 			r.Count("fault_schedules", 1)
+			if k%3 == 0 || k < 8 {
+				// after a failed call a healthy call must be unaffected (no state may leak from the
+				// failed call into the next one)
+				n2 := n
+				if n2 > 3 {
+					n2 = 3
+				}
+				after := runLIB(r, n2, fam.f, &faultyWriter{r: r})
+				r.Logf("  then a fault-free call with n=%d: %d bytes, err=%v", n2, len(after.w.buf), after.err)
+				r.Count("recovery_calls", 1)
+				judge(r, after, n2, fam, "fault-free call right after: "+sched)
+			}
 			if fw.fired == 0 {
 				// the run made fewer writes than the fault-free one; legal only if it also failed... it cannot: nothing failed
 				r.Probe("planned-fault-not-reached")
@@ -431,6 +450,12 @@ func runRandom(r *driver.Run) {
 	}
 	o := runLIB(r, n, fam.f, fw)
 	r.Logf("LIB returned %v after %d writes (%d failed), %d bytes", o.err, o.w.calls, o.w.fired, len(o.w.buf))
+	if fw.fired > 0 {
+		n2 := t.Range(0, 4)
+		after := runLIB(r, n2, fam.f, &faultyWriter{r: r})
+		r.Logf("then a fault-free call with n=%d: %d bytes, err=%v", n2, len(after.w.buf), after.err)
+		judge(r, after, n2, fam, "fault-free call right after a failed one")
+	}
 	if fw.fired > 1 {
 		r.Probe("several-failures-in-one-run")
 	}
@@ -445,7 +470,7 @@ func main() {
 		Engine:   "writer-faults",
 		Level:    "fault_enumeration",
 		Rule: "enumerated case = (n, weight family) for every n up to 14 (24 thorough) x 6 families, plus larger n (33, 65, 70; thorough: 31..33, 63..65, 100, 128..130) x 2 families: one fault-free execution of tsp.LIB whose output is parsed by an independent TSPLIB parser, then one execution per (write position k, failure kind) for EVERY k below the number of Write calls the fault-free run made and every kind in {transient, permanent} x {0 bytes accepted, short count, full count with error} plus transient failures whose error reports Temporary() == true or is one of the sentinel values io.EOF / io.ErrShortWrite / io.ErrClosedPipe; for very large n (260; thorough 255..257, 300, 513) about 300 evenly spaced positions plus the first and last 20; " +
-			"random runs draw n, a weight family (incl. tape-random 64-bit weights) and a per-write failure rate, so several failures land in one execution. A case is non-trivial when LIB performs more than 3 writes (i.e. reaches the buffered weight section); distinct = distinct fingerprints of (writes, bytes, faults fired) sequences.",
+			"after failed calls a fault-free call is made and parsed (no state may leak from a failed call into the next one); random runs draw n, a weight family (incl. tape-random 64-bit weights) and a per-write failure rate, so several failures land in one execution. A case is non-trivial when LIB performs more than 3 writes (i.e. reaches the buffered weight section); distinct = distinct fingerprints of (writes, bytes, faults fired) sequences.",
 		Assumptions: []string{
 			"a Write that returns n < len(p) with a nil error violates the io.Writer contract and is never injected",
 			"the weight function is deterministic and total on 0 <= j < i < n",
